@@ -101,6 +101,11 @@ type BMC struct {
 	// extension commands).
 	Fallback Handler
 
+	// NumberPlain makes the BMC put a running, non-zero sequence number in the
+	// packets it sends outside a session.
+	NumberPlain bool
+	plainCount  uint32
+
 	// SuiteRecords advertised through Get Channel Cipher Suites.
 	SuiteRecords []byte
 
@@ -196,7 +201,14 @@ func (b *BMC) process(rx *Rx) {
 }
 
 func (b *BMC) plainReply(pt uint8, payload []byte) memnet.Out {
-	return memnet.Out{Data: ref.BuildPacket(&ref.Packet{PayloadType: pt, Payload: payload}, 0, nil)}
+	p := &ref.Packet{PayloadType: pt, Payload: payload}
+	if b.NumberPlain {
+		// a BMC that numbers the packets it sends outside a session (the field is
+		// specified as 0 there, but what the peer sends is not the library's choice)
+		b.plainCount++
+		p.Seq = b.plainCount
+	}
+	return memnet.Out{Data: ref.BuildPacket(p, 0, nil)}
 }
 
 func (b *BMC) openSession(rx *Rx) {
